@@ -81,7 +81,7 @@ def one_shot_decode(data: bytes, coding: str) -> Optional[bytes]:
     """Independent content-decoding of a complete body (None if it does not decode)."""
     c = coding.strip().lower()
     try:
-        if c in ("", "identity"):
+        if c in ("", "identity") or not data:      # (a zero-length body is an empty representation under any coding)
             return data
         if c == "gzip":
             return zlib.decompress(data, 16 + zlib.MAX_WBITS)
@@ -161,7 +161,8 @@ class World:
             plan = world.plan_of(request)
             if plan is not None and plan["resp"].get("hook", "ok") == "raise":
                 seen = world.seen.setdefault(plan["id"], {"entered": 0})
-                if not seen.get("hook_fired"):        # the handler's response; the error page that follows passes
+                if not seen.get("hook_fired") and not (seen.get("ret") or {}).get("refused"):
+                    # the handler's own response; the error page that follows passes
                     seen["hook_fired"] = True
                     raise RuntimeError("on_response_prepare handler failed")
 
@@ -316,7 +317,7 @@ class World:
             # before anything is sent; the framework answers 500 on the handler's behalf
             if getattr(resp._payload_writer, "_headers_written", False):
                 raise
-            ret["refused"] = type(exc).__name__
+            ret["refused"] = "PrepareHookFailed" if "on_response_prepare" in str(exc) else type(exc).__name__
             ret["status"], ret["reason"], ret["headers"] = 500, "Internal Server Error", []
             ret["body_len"], ret["body_crc"] = -1, -1
             raise
@@ -515,12 +516,18 @@ class World:
             off_c = off_s = 0                 # the exchange (or its retry) ran on a connection of its own
         seen = self.seen.get(rid, {"entered": 0})
 
+        after_main = [len(kit.links)]
+
+        def main_links() -> int:            # connections opened by the exchange itself (not by warm-up or probe)
+            return after_main[0] - base_links
+
         def observe() -> Dict[str, Any]:
             q: Dict[str, Any] = {
                 "cliDone": bool(t.done()),
                 "handlerEntered": int(seen.get("entered", 0)),
                 "handlerDone": bool(seen.get("exited", seen.get("entered", 0) == 0)),
-                "nlinks": len(kit.links), "aborted": aborted, "pre": pre, "retried": len(kit.links) - max(base_links, 1),
+                "nlinks": len(kit.links), "aborted": aborted, "pre": pre,
+                "retried": main_links() - (0 if pre in ("reused", "stale") else 1),
             }
             if link is not None:
                 q.update({"srvClosed": bool(link.srv_closed), "cliClosed": bool(link.cli_closed),
@@ -765,9 +772,28 @@ def expressible_req(c: dict) -> bool:
         return False
     if c["pre"] != "fresh" and (c["early"] or c["xmode"] != "default"):
         return False
-    if c["pre"] == "stale" and c["m"] == "POST":
-        return False            # not idempotent: no retry, the caller legitimately sees ServerDisconnectedError
+    if c["pre"] == "stale" and (c["m"] == "POST" or c["body"] in ("payUnsized", "slowSized", "slowUnsized")):
+        return False            # not idempotent / body cannot be replayed: no retry, the caller legitimately sees the error
     return True
+
+
+def scenario_stratum(rng: Any) -> List[dict]:
+    """Every (body kind, scenario, expect) triple once, with default framing arguments (chunked=None, compress=off) and a
+    random method / version: the scenario dimensions (early answer, expect handling, abort, connection history) are
+    not left to the pairwise cover of the full request space, where most partners are API-refused combinations."""
+    scen = [c for c in product([("early", [False, True]), ("xmode", XMODES), ("abort", ABORTS), ("pre", PRES)])]
+    out: List[dict] = []
+    for body in RBODY:
+        for sc in scen:
+            for expect in (False, True):
+                for _try in range(8):
+                    c = dict(sc, m=rng.choice(["GET", "HEAD", "POST", "POST", "DELETE"]), ver=rng.choice(["1.0", "1.1", "1.1", "1.1"]),
+                             body=body, chunked="None", compress="off", expect=expect)
+                    if expressible_req(c):
+                        if (c["early"], c["xmode"], c["abort"], c["pre"]) != (False, "default", "none", "fresh"):
+                            out.append(c)
+                        break
+    return out
 
 
 def pairwise_subset(combos: List[dict], dims: List[tuple], rng: Any, target: int) -> List[dict]:
@@ -827,7 +853,8 @@ def req_plan(world: World, c: dict, rng: Any) -> dict:
            "expectMode": c.get("xmode", "default"), "abort": c.get("abort", "none"), "pre": c.get("pre", "fresh"),
            "hcont": rng.choice(["list", "shared"])}
     if c["body"] in ("slowSized", "slowUnsized"):
-        req["n"] = rng.choice([30, 100, 2049])
+        # (cut short by an early answer: sizes below and above the size of the request head)
+        req["n"] = rng.choice([30, 100]) if c.get("early") and rng.random() < 0.8 else rng.choice([30, 100, 2049])
     if c["body"] in ("form", "multipart"):
         req["headers"] = [h for h in req["headers"] if h[0].lower() != "content-type"]
     if req["pre"] == "stale" and rng.random() < 0.6:
@@ -891,8 +918,9 @@ CLAUSE_NOTES = {
     "ConnectPooledByClient": "2xx answer to CONNECT is pooled by the client",
     "Http10TransferEncoding": "Transfer-Encoding: chunked sent on an HTTP/1.0 request",
     "Expect100NeverAnswered": "HTTP/1.0 request with Expect: 100-continue: the server (correctly) ignores it, the client waits forever",
-    "ErrorPageThroughChunkingWriter": "an on_response_prepare handler raised inside StreamResponse.prepare() after the writer had been "
-                                      "switched to chunked mode: the 500 page declares Content-Length and is sent chunk-framed",
+    "ErrorPageAfterFailedPrepare": "an on_response_prepare handler raised inside StreamResponse.prepare() after the writer had been "
+                                   "switched to chunked mode / compression: the 500 page declares Content-Length and is sent "
+                                   "chunk-framed / compressed",
     "WithheldBodyConnectionReused": "Expect: 100-continue answered by a final response (expect handler 417/403, or a handler that "
                                     "does not read the body): the request body is never sent, yet the client returns the "
                                     "connection to the pool while the server still waits for that body",
@@ -993,7 +1021,7 @@ DEVIATIONS = {   # constant -> (clause reported when TLC exhibits it, invariants
     "Expect10Proceeds": ("Expect100NeverAnswered", "HTTP/1.0 + Expect: 100-continue: client waits for a 100 the server must not send"),
     "RefusedPrepareCleansWriter": ("ErrorPageThroughStaleWriter", "prepare() raises (chunked on HTTP/1.0) after enable_compression: "
                                    "the framework's 500 page is written through the compressing writer"),
-    "FailedPrepareCleansWriter": ("ErrorPageThroughChunkingWriter", "an on_response_prepare handler raises inside prepare(): the 500 "
+    "FailedPrepareCleansWriter": ("ErrorPageAfterFailedPrepare", "an on_response_prepare handler raises inside prepare(): the 500 "
                                   "page is written through the writer state (chunking, compression) of the failed response"),
     "WithheldBodyCloses": ("WithheldBodyConnectionReused", "Expect: 100-continue answered by a final response: the body is never "
                            "sent, yet the client pools the connection"),
@@ -1006,6 +1034,8 @@ MECHANISMS = {
     "FreshHeaderContainer": "StreamResponse copies the header container it is given",
 }
 CONSTANTS = list(DEVIATIONS) + list(MECHANISMS)
+REQ_SIDE = {"ChunkedFlagTruthy", "ChunkedSetsTE", "HeadReqBodyFramed", "Http10NoChunkedReq", "Expect10Proceeds",
+            "WithheldBodyCloses", "HostKeptOnRetry", "CutBodyCloses", "CancelCloses"}      # = ReqSideDevs of the spec
 INVS = ["FramingTruthful", "ReceiverFollowsRfc", "CloseAgree", "NoHang", "UnfinishedNeverReused", "RetrySameRequest"]
 SPEC_DIR = os.path.join(os.path.dirname(os.path.dirname(os.path.abspath(__file__))), "spec")
 
@@ -1054,7 +1084,8 @@ def model_runs(ctx: Ctx) -> None:
     ideal = {k: True for k in CONSTANTS}
     # quick: enumerate the deviations that are still open; thorough: every switch, the mechanisms included
     names = [k for k in DEVIATIONS if not coded[k]] if ctx.quick else list(CONSTANTS)
-    parts = [p for p in (names[i::3] for i in range(3)) if p]
+    resp_side = [k for k in names if k not in REQ_SIDE]          # the expensive ones: one process each
+    parts = [[k] for k in resp_side] + ([[k for k in names if k in REQ_SIDE]] if any(k in REQ_SIDE for k in names) else [])
 
     def exhibit(part: List[str]) -> Any:
         cfg = write_cfg("exhibit", ideal, [], spec="XSpec", post="PrintSome")
@@ -1149,11 +1180,12 @@ def run(ctx: Ctx) -> None:
         resp_sel = pairwise_subset(resp_all, RESP_DIMS, rng, 700)
         have = {json.dumps(c, sort_keys=True) for c in resp_sel}
         resp_sel += [c for c in pairwise_subset(plain, plain_dims, rng, 450) if json.dumps(c, sort_keys=True) not in have]
-        req_sel = pairwise_subset(req_all, REQ_DIMS, rng, 650)
+        req_sel = pairwise_subset(req_all, REQ_DIMS, rng, 450) + scenario_stratum(rng)
     else:
         # every combination of the framing dimensions; the scenario dimensions (early answer, expect handling, abort,
         # connection history) pairwise + sampled
-        resp_sel, req_sel = resp_all, req_base + pairwise_subset(req_all, REQ_DIMS, rng, 6000)
+        resp_sel = resp_all
+        req_sel = req_base + pairwise_subset(req_all, REQ_DIMS, rng, 5000) + scenario_stratum(rng) + scenario_stratum(rng)
         rng.shuffle(resp_sel)
     ctx.extra["combos"] = {"response_total": len(resp_all), "response_run": len(resp_sel),
                            "request_total": len(req_all), "request_run": len(req_sel)}
